@@ -1,6 +1,10 @@
 use crate::core::Property;
 
 pub mod c03;
+pub mod c06;
+pub mod c10;
+pub mod c15;
+pub mod c17;
 pub mod c04;
 pub mod c18;
 pub mod c19;
@@ -9,6 +13,10 @@ pub fn all() -> Vec<Box<dyn Property>> {
     vec![
         Box::new(c03::P),
         Box::new(c04::P),
+        Box::new(c06::P),
+        Box::new(c10::P),
+        Box::new(c15::P),
+        Box::new(c17::P),
         Box::new(c18::P),
         Box::new(c19::P),
     ]
